@@ -40,8 +40,8 @@ C18Fails(e) ==
                                   ELSE IF \E k \in 1 .. Len(acc) : acc[k] = Head(s) THEN Dedup(Tail(s), acc)
                                   ELSE Dedup(Tail(s), Append(acc, Head(s)))
              IN Dedup(gotKeys, <<>>) = want), "variable names are not reported in order of first occurrence")
-       \o F(ToSet(e.auto) = ToSet(want) /\ \A i, j \in 1 .. Len(e.auto) : i # j => e.auto[i] # e.auto[j],
-            "automatic variables are not exactly one entry per discovered name")
+       \o F(ToSet(e.auto) = ToSet(want) \cup ToSet(e.predefkeys) /\ \A i, j \in 1 .. Len(e.auto) : i # j => e.auto[i] # e.auto[j],
+            "automatic variables are not exactly one entry per discovered name next to the entries that were already there")
 
 Fails(e) == IF e.op # "tmpl" THEN "" ELSE IF Check = "C10" THEN C10Fails(e) ELSE C18Fails(e)
 
